@@ -81,6 +81,15 @@ def gen_case(rng, tier):
     }
     if u8:
         case_["inputs"]["rep1"] = case_["inputs"]["rep2"] = "u8"
+    elif A and B and rng.random() < 0.12:
+        how = rng.choice(dgmgen.SHARED)
+        if how in ("cols4", "interleave", "window"):
+            n_ = min(len(A), len(B))
+            A, B = A[:n_], B[:n_]
+            if how == "window" and n_ >= 2:
+                k_ = rng.randint(1, n_ - 1)
+                B = A[k_:] + B[:k_]
+        case_["inputs"].update(dgm1=A, dgm2=B, rep1="f64", rep2="f64", shared=how)
     return case_
 
 
@@ -153,6 +162,16 @@ def run_case(case, sched):
             raise InvalidCase("C06 is stated for finite diagrams")
     A = dgmgen.materialize(inp["dgm1"], inp.get("rep1", "f64"))
     B = dgmgen.materialize(inp["dgm2"], inp.get("rep2", "f64"))
+    shared_used = 0
+    if inp.get("shared") is not None:
+        # both diagrams are views into one buffer of the caller
+        if inp["shared"] not in dgmgen.SHARED:
+            raise InvalidCase("shared")
+        vw_ = dgmgen.shared_views(inp["dgm1"], inp["dgm2"], inp["shared"]) \
+            if inp.get("rep1", "f64") == "f64" and inp.get("rep2", "f64") == "f64" else None
+        if vw_ is not None:
+            A, B = vw_
+            shared_used = 1
     S, T = placeholder(dgmgen.as_points(A)), placeholder(dgmgen.as_points(B))
     coords = [abs(x) for p in list(S) + list(T) for x in p]
     scale = max(max(coords), 1e-300)
@@ -234,6 +253,7 @@ def run_case(case, sched):
         "key": hashlib.sha1(json.dumps([inp["dgm1"], inp["dgm2"]]).encode()).hexdigest()[:16],
         "nontrivial": n_real == 2 and len(inp["dgm1"]) + len(inp["dgm2"]) >= 3 and len(results) >= 2,
         "probes": {
+            "pair_views_of_one_buffer": shared_used,
             "orders_gave_different_valid_matchings": int(len(distinct_matchings) > 1),
             "matching_mixes_cross_and_diagonal": int(any(
                 any(r[0] >= 0 and r[1] >= 0 for r in rows) and any(r[0] < 0 or r[1] < 0 for r in rows)
